@@ -211,9 +211,16 @@ func c10Sibling(r *rand.Rand, depth int) (jmem, string) {
 		}
 		return jmem{[]string{"a", "b", "features", "scenes"}[r.Intn(4)], c10Deep(r, d, inner)}, "deep"
 	}
+	if r.Intn(12) == 0 {
+		// a sibling whose KEY is a literal of the tree's source (a key that some other format or a
+		// new sub-type looks for must not change the verdict unless the statement names it)
+		if lit := c10DictString(r); lit != "" && lit != `"type"` && lit != `"log"` && lit != `"asset"` {
+			return jmem{lit[1 : len(lit)-1], raw([]string{`1`, `"x"`, `{}`, `[1]`, `{"version":"2.0"}`}[r.Intn(5)])}, "dict-key"
+		}
+	}
 	keys := []string{"a", "b", "name", "id", "Type", "types", "typ", "logs", "Log", "assets", "Asset", "versions", "x y", "accessors", "features", "geometry", "properties", "scenes", "bbox", "coordinates"}
 	key := keys[r.Intn(len(keys))]
-	scalars := []string{`1`, `-2.5e3`, `true`, `false`, `null`, `"x"`, `""`, `"Feature "`, `" Point"`, `"feature"`, `"3.0"`, `"2.0 "`, `"1.0"`, `"a,b"`, `"}"`, `"]"`, `"[{"`, `"\\"`, `"\""`, `"é"`, `"é"`}
+	scalars := []string{`1`, `-2.5e3`, `true`, `false`, `null`, `"x"`, `""`, `"Feature "`, `" Point"`, `"feature"`, `"3.0"`, `"2.0 "`, `"1.0"`, `"a,b"`, `"}"`, `"]"`, `"[{"`, `"\\"`, `"\""`, `"é"`, `"é"`, "\"del \x7f inside\"", "\"\x7f\""}
 	var scalar = func() jval {
 		if r.Intn(10) == 0 {
 			// a literal of the tree's source as a string value (what other members contain must not matter)
@@ -516,6 +523,27 @@ func c10Run(c *fw.Ctx, b fw.Batch) {
 			lay := c10Layouts[r.Intn(len(c10Layouts))]
 			c10JudgeObject(c, ms, lay, tags, true)
 		}
+	case "big":
+		// objects of more than 4 MiB and 16 MiB with the deciding member at the very end / start
+		for _, size := range []int{5 << 20, 17 << 20} {
+			var pad bytes.Buffer
+			pad.WriteString(`"pad":[`)
+			for pad.Len() < size {
+				pad.WriteString(`{"k":[1,2,3],"s":"some text"},`)
+			}
+			pad.WriteString(`0]`)
+			for di, dec := range []string{`"type":"Feature"`, `"log":{"version":"1.2"}`, `"asset":{"version":"2.0"}`} {
+				want := [][2]string{{"application/geo+json", ".geojson"}, {"application/json", ".har"}, {"model/gltf+json", ".gltf"}}[di]
+				late := []byte("{" + pad.String() + "," + dec + "}")
+				early := []byte("{" + dec + "," + pad.String() + "}")
+				for _, d := range [][]byte{late, early} {
+					for _, L := range []uint32{0, uint32(len(d) + 1)} {
+						c10JudgeOne(c, "big", d, L, want[0], want[1])
+					}
+				}
+				c.Count("objects_of_5_MiB_and_more", 1)
+			}
+		}
 	case "long":
 		// deciding member pushed towards / across the default limit by big siblings
 		for i := 0; i < b.N; i++ {
@@ -564,6 +592,7 @@ func init() {
 			bs = append(bs, batches("perm", 8, np, 1800)...)
 			bs = append(bs, batches("random", 6, nr, 1800)...)
 			bs = append(bs, batches("long", 2, nl, 1800)...)
+			bs = append(bs, batches("big", 1, 0, 1800)...)
 			return bs
 		},
 		Run: c10Run,
